@@ -382,7 +382,30 @@ const (
 	tok64  = "18446744073709551616" // 2^64
 )
 
-func (d *driver) valsPart(name string, n int, tokAlpha []string, flagsList []string, triesList []int, chains []string) {
+type valCombo struct {
+	tries int
+	seed  string
+	id    uint64
+	chain string
+}
+
+// combosFull: every tries x 2 seeds x 2 ids on the first chain id, plus the other chain ids with (seed0, id 1).
+func combosFull(triesList []int, chains []string) []valCombo {
+	var out []valCombo
+	for _, tr := range triesList {
+		for _, s := range seeds[:2] {
+			for _, id := range []uint64{1, ^uint64(0)} {
+				out = append(out, valCombo{tr, s, id, chains[0]})
+			}
+		}
+		for _, ch := range chains[1:] {
+			out = append(out, valCombo{tr, seeds[0], 1, ch})
+		}
+	}
+	return out
+}
+
+func (d *driver) valsPart(name string, n int, tokAlpha []string, flagsList []string, combos []valCombo) {
 	toks := tokenVectors(tokAlpha, n)
 	total := int64(len(toks)) * int64(len(flagsList))
 	d.part(name, total, func(worker int, idx int64) {
@@ -394,25 +417,21 @@ func (d *driver) valsPart(name string, n int, tokAlpha []string, flagsList []str
 		e.applyVals(ctx, tokens, fl)
 		el := e.refEligible(tokens, fl)
 		keys := map[string]struct{}{}
-		for ask := 1; ask <= n+1; ask++ {
-			for _, tr := range triesList {
-				for _, s := range seeds[:2] {
-					for _, id := range []uint64{1, ^uint64(0)} {
-						for ci, ch := range chains {
-							if ci > 0 && (s != seeds[0] || id != 1) {
-								continue // the second chain id is combined with one (seed, id) pair only
-							}
-							c := Case{Kind: "vals", Tokens: tv, Flags: fl, Cnt: ask, Tries: tr, Seed: s, ID: id, ChainID: ch}
-							res := evalValsOn(e, ctx, el, c)
-							d.record(c, res)
-							if res.Key != "" && len(el.addrs) >= 2 {
-								keys[fmt.Sprintf("%d|%s", ask, res.Key)] = struct{}{}
-							}
-							if idx%4099 == 11 && tr == 3 && id == 1 && ask == 2 {
-								d.tally.Sample(40, map[string]any{"case": c, "outcomes": res.Outcomes, "committee": res.Key})
-							}
-						}
-					}
+		// asks above eligible+1 all take the same "too few" path: enumerate 1..min(eligible+1, n+1)
+		maxAsk := len(el.addrs) + 1
+		if maxAsk > n+1 {
+			maxAsk = n + 1
+		}
+		for ask := 1; ask <= maxAsk; ask++ {
+			for _, cb := range combos {
+				c := Case{Kind: "vals", Tokens: tv, Flags: fl, Cnt: ask, Tries: cb.tries, Seed: cb.seed, ID: cb.id, ChainID: cb.chain}
+				res := evalValsOn(e, ctx, el, c)
+				d.record(c, res)
+				if res.Key != "" && len(el.addrs) >= 2 {
+					keys[fmt.Sprintf("%d|%s", ask, res.Key)] = struct{}{}
+				}
+				if idx%4099 == 11 && cb.tries == 3 && cb.id == 1 && ask == 2 {
+					d.tally.Sample(40, map[string]any{"case": c, "outcomes": res.Outcomes, "committee": res.Key})
 				}
 			}
 		}
@@ -422,17 +441,18 @@ func (d *driver) valsPart(name string, n int, tokAlpha []string, flagsList []str
 
 func (d *driver) runVals(quick bool, n int) {
 	chains := []string{engine.ChainID, "other-chain-1"}
-	// token alphabet: two values per consensus-power class 0 and 1 (ties in the power index are broken by
-	// address), one mid value and the huge ones
+	// token alphabet: two values per consensus-power class (3 in class 0; 1000000 and 1500000 in class 1: ties in the
+	// power index are broken by address), mid values and the huge ones
 	if quick {
-		d.valsPart("vals:n=4", 4, []string{"3", "1000000", "1500000", tok63}, flagVectors(valFlags, 4), []int{1, 3}, chains)
+		combos := []valCombo{{1, seeds[0], 1, chains[0]}, {3, seeds[0], 1, chains[0]}, {3, seeds[1], ^uint64(0), chains[0]}, {3, seeds[0], 1, chains[1]}}
+		d.valsPart("vals:n=4", 4, []string{"3", "1000000", "1500000", tok63}, flagVectors(valFlags, 4), combos)
 	} else {
-		d.valsPart("vals:n=4", 4, []string{"1", "3", "1000000", "1500000", "99999999", tok62, tok63}, flagVectors(valFlags, 4), []int{1, 2, 3, 10}, chains)
-		d.valsPart("vals:n=5", 5, []string{"1", "1000000", "1500000", tok63}, flagVectors(valFlags, 5), []int{1, 3}, chains[:1])
-		d.valsPart("vals:n=6:all-eligible-or-inactive", 6, []string{"3", "1000000", "1500000", tok62}, flagVectors([]byte{'E', 'I'}, 6), []int{3}, chains[:1])
+		d.valsPart("vals:n=4", 4, []string{"1", "3", "1000000", "1500000", "99999999", tok62, tok63}, flagVectors(valFlags, 4), combosFull([]int{1, 2, 3, 10}, chains))
+		d.valsPart("vals:n=5", 5, []string{"1", "1000000", "1500000", tok63}, flagVectors(valFlags, 5), combosFull([]int{1, 3}, chains[:1]))
+		d.valsPart("vals:n=6:eligible-or-inactive", 6, []string{"3", "1000000", "1500000", tok62}, flagVectors([]byte{'E', 'I'}, 6), combosFull([]int{3}, chains[:1]))
 	}
 	// around 2^64: single validators at / above the uint64 limit and totals crossing it
-	d.valsPart("vals:near-2^64", 3, []string{"1", tok63, tok64m, tok64}, flagVectors([]byte{'E', 'I'}, 3), []int{1, 3}, chains[:1])
+	d.valsPart("vals:near-2^64", 3, []string{"1", tok63, tok64m, tok64}, flagVectors([]byte{'E', 'I'}, 3), combosFull([]int{1, 3}, chains[:1]))
 }
 
 // ---- through the message router: MsgRequestData -> Request.RequestedValidators ---------------------------------
